@@ -101,6 +101,16 @@ RunCheckOnField(c, cells) ==
        IN [passed |-> allbad = {}, scalar |-> FALSE,
            pos |-> FailingPositions(c, cells), args |-> Shown(c, cells)]
 
+(* A check function that cannot be evaluated on the data raises; the back end    *)
+(* reports that as a failed check (reason CHECK_ERROR).  PINNED:                 *)
+(*  - an ordering comparison shown a string raises TypeError                     *)
+(*  - a str_* check on a non-object column raises AttributeError (.str accessor) *)
+OrderingKinds == {"gt", "ge", "lt", "le", "in_range"}
+StrOnlyKinds  == {"str_matches", "str_contains", "str_startswith", "str_endswith", "str_length"}
+CheckRaises(c, pd, cells) ==
+  \/ c.k \in OrderingKinds /\ \E i \in Shown(c, cells) : IsStr(cells[i])
+  \/ c.k \in StrOnlyKinds /\ pd \in {"int64", "float64", "bool", "Int64"}
+
 (* Metamorphic facts about the back end, checked by TLC in MC_Checks:       *)
 (*  - the staged computation equals the declarative meaning                *)
 (*  - n_failure_cases never changes the verdict and reports a prefix        *)
